@@ -120,12 +120,15 @@ POSITIONS = {  # class -> list of (position name, wrap(child) -> value of nxt, f
 }
 
 
-def chain(cls, pos, n, leaf="ok"):
-    """input with data-class nesting depth n through position `pos`; also the projected tree"""
+def chain(cls, pos, n, leaf="ok", as_bytes=None):
+    """input with data-class nesting depth n through position `pos`; also the projected tree.  as_bytes = k: the object at
+    level k (counted from the innermost one) is handed over as its JSON text in bytes (same meaning, same depth)"""
     name, wrap, falsy = pos
     node = {"leaf": leaf} if leaf is not None else {}      # leaf None: the innermost object is empty (all defaults)
     tree = {"cls": True, "cyc": False, "falsy": falsy, "kids": []}
-    for _ in range(n - 1):
+    for lvl in range(n - 1):
+        if as_bytes == lvl:
+            node = json.dumps(node).encode()
         w = wrap(node)
         kids = [tree]
         if isinstance(w, (list, tuple)) and len(w) == 2:
@@ -211,6 +214,12 @@ def main():
                     add("exact", clsname, pos[0], data, tree, d, "ok")
                     data, tree = chain(clsname, pos, depth, leaf=None)
                     add("exact-empty", clsname, pos[0], data, tree, d, "ok")
+                    if depth >= 2:
+                        try:
+                            data, tree = chain(clsname, pos, depth, as_bytes=rng.randrange(depth - 1))
+                        except TypeError:
+                            continue        # this position wraps its value in something JSON cannot carry
+                        add("exact-bytes", clsname, pos[0], data, tree, d, "ok")
             for depth in (1, 3, 6):
                 data, tree = chain(clsname, pos, depth)
                 add("exact", clsname, pos[0], data, tree, 0, "ok")
